@@ -21,6 +21,7 @@ One tick = 1/1024 s.
 """
 import gc
 import os
+import zlib
 import weakref
 
 import common
@@ -333,6 +334,17 @@ def run_real(sc, line_preempt=None, wall_s=20.0, max_steps=6000):
                 holder["rot"] = holder.get("rot", 0) + 1
                 app.cookie = f"session=s{holder['rot']}"
         f.__name__ = name
+        # a callback is any callable: one scenario in three hands the library functools.partial objects, one in three
+        # instances of a class with __call__ (neither has a __name__), the rest plain functions
+        kind = sc.get("cb_kind") or ("function", "partial", "object")[zlib.crc32((str(sc.get("tag", "")) + str(sc.get("cbs")) + str(sc.get("plan"))).encode()) % 3]
+        if kind == "partial":
+            import functools
+            return functools.partial(f)
+        if kind == "object":
+            class Handler:
+                def __call__(self, *a):
+                    return f(*a)
+            return Handler()
         return f
     mask = sc.get("cbs", ALL)
     kw = {n: mk(n) for i, n in enumerate(CBS) if (mask >> i) & 1}
